@@ -252,6 +252,59 @@ func runC17(env *Env, data map[string]any) *Outcome {
 			addF(o, Finding{Kind: "D", What: "total --now (" + lay.name + ") must refuse the open range", Impl: impl, Input: in})
 		}
 	}
+	// ---- total --now with open ranges in several records (each one is closed or refused on its own) ----
+	recOf := func(date string, start int) string { return date + "\n    30m\n    " + fmtTime24(start) + " - ?\n" }
+	for _, lay := range []struct {
+		name      string
+		recs      []string
+		wantExtra int
+		ok        bool
+	}{
+		{"now-yesterday+today", []string{recOf(recY, 600), recOf(recT, 0)}, (minute + 1440 - 600) + minute, true},
+		{"now-today+yesterday", []string{recOf(recT, 0), recOf(recY, 600)}, (minute + 1440 - 600) + minute, true},
+		{"now-today+today", []string{recOf(recT, 0), recOf(recT, minute)}, minute, true},
+		{"now-today+older", []string{recOf(recT, 0), recOf(yesterday.prev().String(), 600)}, 0, false},
+		{"now-older+today", []string{recOf(yesterday.prev().String(), 600), recOf(recT, 0)}, 0, false},
+		{"now-yesterday+future", []string{recOf(recY, 600), recOf(recTm, -60)}, 0, false},
+		{"now-today+today-late", []string{recOf(recT, 0), recOf(recT, minute+1)}, 0, false},
+	} {
+		if minute+1 >= 1440 && lay.name == "now-today+today-late" {
+			continue
+		}
+		text := strings.Join(lay.recs, "\n")
+		file := writeFile(env, "c17now2.klg", text)
+		evals++
+		res := runCLI(env, CLIOpts{Now: mkTime(now[0], now[1], now[2], now[3], now[4])}, "total", "--now", "--decimal", "--no-style", "--no-warn", file)
+		in := map[string]any{"text": hx(text), "now": now, "layout": lay.name}
+		model := env.Drv.Ask("evalnow", hx(text), fmt.Sprint(now[0]), fmt.Sprint(now[1]), fmt.Sprint(now[2]), fmt.Sprint(now[3]), fmt.Sprint(now[4]))
+		var impl string
+		switch {
+		case res.Panic != "":
+			impl = "panic"
+		case res.Code != 0:
+			impl = "uncloseable"
+		default:
+			if m := reTotalLine.FindStringSubmatch(res.Stdout); m != nil {
+				impl = "total " + m[2]
+			}
+		}
+		modelShort := model
+		if strings.HasPrefix(model, "closed=") {
+			if i := strings.Index(model, "total=ok "); i >= 0 {
+				modelShort = "total " + strings.Fields(model[i+9:])[0]
+			}
+		}
+		if impl != modelShort {
+			addF(o, Finding{Kind: "K", What: "K.C17.now: `klog total --now` differs from the model (" + lay.name + ")", Impl: impl, Model: model, Input: in})
+		}
+		if res.Panic != "" {
+			addF(o, Finding{Kind: "D", What: "klog total --now crashes (" + lay.name + "): " + res.Panic, Input: in})
+		} else if lay.ok && impl != fmt.Sprintf("total %d", 60+lay.wantExtra) {
+			addF(o, Finding{Kind: "D", What: fmt.Sprintf("total --now (%s) must add exactly %d minutes", lay.name, lay.wantExtra), Impl: impl + " " + short(res.Err, 100), Input: in})
+		} else if !lay.ok && impl != "uncloseable" {
+			addF(o, Finding{Kind: "D", What: "total --now (" + lay.name + ") must refuse the open range that cannot be closed", Impl: impl, Input: in})
+		}
+	}
 	o.Evals = evals
 	o.Sample = map[string]any{"day": today.String(), "minute": fmt.Sprintf("%02d:%02d", minute/60, minute%60), "cli_runs": evals}
 	return o
